@@ -53,7 +53,7 @@ class Update(Machine):
             "fast_stack": True,
             "clock": "advancing",
             "faults_enabled": s.chance(0.5),
-            "fault_kinds": s.subset(["crash", "enospc", "eio_read", "short_read", "short_write", "open_fail", "stat_fail"], 0.6),
+            "fault_kinds": s.subset(["crash", "enospc", "eio_read", "short_read", "short_write", "write_fail", "open_fail", "stat_fail"], 0.6),
             "rerun_after_crash": s.chance(0.8),
         }
         files = [[self.odd_stem(s, f"env{j}", dirs=True) + ".suit", s.choice(SIZES if tier == "thorough" else SIZES[:11])]
